@@ -286,7 +286,7 @@ func run(c Case) vt.Verdict {
 func TestProp(t *testing.T) {
 	vt.Main(t, vt.Spec[Case]{
 		ID:           "C10",
-		Rule:         "fault-sequence generation: 1-3 nodes, any subset down when the manager is created, a generated sequence of stop / start events, traffic calls of 8 kinds with 150 ms deadlines and sleeps (so crashes strike with calls pending and during back-off), all nodes listening again at the end; manager metadata and per-node metadata function generated; gorums' and grpc's back-off set to 400 or 1200 ms. Oracle: (a) repeated RPCs reach every node that listens again within the bound, without recreating manager or configuration; (b) for the first RPC whose request the restarted server handled, the time from the handler's exit to the call's return must stay below half the back-off (replies otherwise take < 5 ms; a slow reply is confirmed by a second independent run of the case); (c) every accepted stream triggered exactly one connect callback whose context carries all general pairs and exactly the per-node pairs of that node's id; non-trivial = some node was restarted or came up after the manager was created",
+		Rule:         "fault-sequence generation: 1-3 nodes, any subset down when the manager is created, a generated sequence of stop / start events, traffic calls of 8 kinds with 150 ms deadlines and sleeps (so crashes strike with calls pending and during back-off), all nodes listening again at the end; manager metadata and per-node metadata function generated; gorums' and grpc's back-off set to 400 or 1200 ms. Oracle: (a) repeated RPCs reach every node that listens again within the bound, without recreating manager or configuration; (b) for the first RPC whose request the restarted server handled, the time from the handler's exit to the call's return must stay below half the back-off (replies otherwise take < 5 ms; a slow reply is confirmed by a second independent run of the case); a probe that the restarted server handled and answered must not fail at the caller (reported if a second independent run loses the reply again); (c) every accepted stream triggered exactly one connect callback whose context carries all general pairs and exactly the per-node pairs of that node's id; non-trivial = some node was restarted or came up after the manager was created",
 		Gen:          gen,
 		Run:          run,
 		TrackCurrent: true,
